@@ -217,8 +217,14 @@ func (fx *FnExec) havocAll(h *Heap) {
 		if srt, ok := fx.e.heapSort[n]; ok {
 			oldMono[n] = fx.heapVar(h, n, srt)
 		} else {
-			fx.e.heapSort[n] = arraySort("Int", "Int")
-			oldMono[n] = fx.heapVar(h, n, arraySort("Int", "Int"))
+			srt := arraySort("Int", "Int")
+			for _, g := range fx.e.cs.Ghosts {
+				if "ghost."+g.Name == n {
+					srt = g.Sort
+				}
+			}
+			fx.e.heapSort[n] = srt
+			oldMono[n] = fx.heapVar(h, n, srt)
 		}
 	}
 	h.vers = keep
@@ -227,6 +233,11 @@ func (fx *FnExec) havocAll(h *Heap) {
 		nv := fx.heapVar(h, n, fx.e.heapSort[n])
 		fx.c.nfresh++
 		q := fmt.Sprintf("q!m!%d", fx.c.nfresh)
+		if fx.e.heapSort[n] == arraySort("Int", "Bool") {
+			// a latch: an entry that is set stays set
+			fx.c.assert(fmt.Sprintf("(forall ((%s Int)) (! (=> (select %s %s) (select %s %s)) :pattern ((select %s %s)) :pattern ((select %s %s))))", q, oldMono[n], q, nv, q, nv, q, oldMono[n], q))
+			continue
+		}
 		fx.c.assert(fmt.Sprintf("(forall ((%s Int)) (! (=> (not (= (select %s %s) 0)) (not (= (select %s %s) 0))) :pattern ((select %s %s))))", q, oldMono[n], q, nv, q, nv, q))
 	}
 	// the allocation counter only grows
